@@ -27,6 +27,12 @@ RULE = ('Through a connection: the four serverbound play core packets, '
         'the packet (G4). Non-trivial: (release, packet) cases with at '
         'least one field off its zero/empty value (or field-less packets, '
         'counted once per release); distinct by (release, packet, values).')
+RULE += (' ' +
+         'Added in later rounds: the serverbound position-and-look packet '
+         'filled through its record view; core serverbound packets carrying '
+         'a foreign context written through a logged-in Connection; recycled '
+         'packet objects (first written / read as the same packet of another '
+         'release, then filled / read again after their context moved on). ')
 LEVEL_TEXT = ('Differential testing of ids and byte layouts of the core '
               'packet set against an independent literal table and encoder, '
               'complete over releases x core packets, sampled over field '
